@@ -1126,10 +1126,19 @@ func genDesc(r *rand.Rand) *Desc {
 		}
 		// reuse an existing path with another method now and then
 		p := sb.String()
+		if len(p) > 1 && r.Intn(8) == 0 {
+			p += "/" // a template may end in a slash: names are compared as declared
+		}
+		// "/a" and "/a/" are the same route: one description never declares both
+		for _, o := range d.Ops {
+			if strings.TrimSuffix(o.Path, "/") == strings.TrimSuffix(p, "/") {
+				p = o.Path
+			}
+		}
 		if len(d.Ops) > 0 && r.Intn(3) == 0 {
 			p = d.Ops[r.Intn(len(d.Ops))].Path
 			shape = ""
-			for _, seg := range strings.Split(p[1:], "/") {
+			for _, seg := range strings.Split(strings.TrimSuffix(p[1:], "/"), "/") {
 				if strings.HasPrefix(seg, "{") {
 					shape += "/*"
 				} else {
